@@ -40,6 +40,23 @@ def qualname(obj):
     return "%s.%s" % (mod, qn) if qn else str(mod)
 
 
+_fresh_n = [0]
+
+
+def fresh_copy(module):
+    """A second, independent instance of a module loaded from the same source file: module-level state (caches, registries) starts
+    empty, as in a new process.  Used by concrete replays so that what they observe comes from the replayed call sequence alone and
+    not from values the symbolic stage left behind in a module-level cache."""
+    import importlib.util
+    _fresh_n[0] += 1
+    name = "%s__fresh%d" % (module.__name__, _fresh_n[0])
+    spec = importlib.util.spec_from_file_location(name, module.__file__)
+    mod = importlib.util.module_from_spec(spec)
+    mod.__package__ = module.__package__
+    spec.loader.exec_module(mod)
+    return mod
+
+
 def load_known_findings():
     try:
         with open(KNOWN_FINDINGS) as fp:
